@@ -621,6 +621,156 @@ def gen_case(rng, depth=3, max_n=4, allow_fd=True, allow_variant=True):
     raise RuntimeError('could not generate a case')
 
 
+# ---------------------------------------------------------------------------- large / deep / boundary-size cases
+LARGE_KINDS = ['array-long', 'array-long', 'string-long', 'signature-long', 'variant-signature-long', 'deep-arrays',
+               'deep-structs', 'deep-mixed', 'nan-key', 'array-of-long-strings']
+ARRAY_LENGTHS = [8, 9, 15, 16, 17, 31, 33, 64, 100, 255, 256, 300]
+STRING_BYTES = [254, 255, 256, 257, 300, 4095, 4096, 65535, 65536, 70000]
+SIG_LENGTHS = [126, 127, 128, 129, 200, 254, 255]
+
+
+def _nest(rng, levels, leaf):
+    """A type nested `levels` deep over `leaf` using 'a' / '(' as `levels` says ('a', '(' or 'm' mixed)."""
+    ty = leaf
+    for kind in levels:
+        ty = ('a', ty) if kind == 'a' else ('(', (ty,))
+    return ty
+
+
+def _nest_spec(ty, leafval, width=1):
+    if isinstance(ty, str):
+        return leafval
+    if ty[0] == 'a':
+        return [_nest_spec(ty[1], leafval) for _ in range(width)]
+    return [_nest_spec(ty[1][0], leafval)]
+
+
+def gen_large_case(rng, kind=None):
+    """(kind, types, spec values): size- and depth-boundary cases that the ordinary generator never reaches -
+    arrays of 8..300 elements, strings of 255..70 000 bytes, signatures of 127..255 characters (as `g` values and
+    as the content type of a variant), nesting up to the specification's 32 arrays + 32 structs, NaN dict keys."""
+    kind = kind or rng.choice(LARGE_KINDS)
+    lead = rng.choice(['y', 'u', 'x', 's', 'q'])       # shifts the residue at which the interesting value starts
+    if kind == 'array-long':
+        el = rng.choice(['y', 'n', 'u', 'x', 't', 'd', 'b', 's', ('(', ('y', 'x')), ('(', ('u',)), ('{', 's', 'u'),
+                         ('{', 'y', 'x'), ('a', 'y'), 'v'])
+        n = rng.choice(ARRAY_LENGTHS)
+        ty = ('a', el)
+        if not isinstance(el, str) and el[0] == '{':
+            sv = []
+            for i in range(n):
+                k = ('k%d' % i) if el[1] == 's' else i % 256
+                if any(_key_eq(k, k0) for k0, _ in sv):
+                    continue
+                sv.append((k, gen_basic(rng, el[2])))
+        else:
+            sv = [gen_spec(rng, el, 1) for _ in range(n)]
+        tys, svs = [lead, ty, 'y'], [gen_basic(rng, lead), sv, 7]
+    elif kind == 'string-long':
+        nbytes = rng.choice(STRING_BYTES)
+        unit = rng.choice(['a', 'é', '€'])
+        s = unit * (nbytes // len(unit.encode())) + 'z' * (nbytes % len(unit.encode()))
+        code_ = rng.choice(['s', 's', 'o'])
+        if code_ == 'o':
+            s = ('/' + 'p' * 9) * (nbytes // 10) + '/' + 'q' * (nbytes % 10 - 1 if nbytes % 10 > 1 else 1)
+        tys, svs = [lead, code_, 'x'], [gen_basic(rng, lead), s, -2]
+    elif kind == 'array-of-long-strings':
+        tys = [('a', 's'), 'u']
+        svs = [['a' * rng.choice([255, 256, 300]) for _ in range(rng.choice([2, 9]))], 5]
+    elif kind == 'signature-long':
+        n = rng.choice(SIG_LENGTHS)
+        g = rng.choice(['i' * n, '(' + 'y' * (n - 2) + ')', 'a' * 31 + 'y' + 'u' * (n - 32)])
+        tys, svs = [lead, 'g', 'u'], [gen_basic(rng, lead), g, 9]
+    elif kind == 'variant-signature-long':
+        n = rng.choice(SIG_LENGTHS)
+        vt = ('(', tuple(['y'] * (n - 2)))
+        tys, svs = [lead, 'v', 'u'], [gen_basic(rng, lead), ('V', vt, [i % 256 for i in range(n - 2)]), 9]
+    elif kind in ('deep-arrays', 'deep-structs', 'deep-mixed'):
+        depth = rng.choice([8, 9, 16, 31, 32])
+        if kind == 'deep-arrays':
+            levels = 'a' * depth
+        elif kind == 'deep-structs':
+            levels = '(' * depth
+        else:
+            levels = 'a(' * depth                      # the specification's limit: 32 arrays AND 32 structs
+        leaf = rng.choice(['y', 'x', 's'])
+        ty = _nest(rng, levels, leaf)
+        tys, svs = [lead, ty], [gen_basic(rng, lead), _nest_spec(ty, gen_basic(rng, leaf))]
+    elif kind == 'nan-key':
+        vt = rng.choice(['i', 's', 'v'])
+        nan = _dbl(rng.choice([0x7FF8000000000000, 0xFFF8000000000001, 0x7FF0000000000001]))
+        entries = [(nan, gen_spec(rng, vt, 1)), (1.5, gen_spec(rng, vt, 1))]
+        rng.shuffle(entries)
+        tys, svs = [('a', ('{', 'd', vt))], [entries]
+    else:
+        raise ValueError(kind)
+    return kind, tys, svs
+
+
+def spell_case(rng, tys, svs):
+    """Python spelling of a whole case: (pvs, descriptors in wire order, expected decoding)."""
+    for _ in range(50):
+        try:
+            fds = []
+            pvs = [to_python(rng, t, s, fds) for t, s in zip(tys, svs)]
+            return pvs, fds, [expected_decoded(t, s) for t, s in zip(tys, svs)]
+        except Retry:
+            continue
+    raise RuntimeError('could not spell the case %s' % render_all(tys))
+
+
+def top_spelling(rng, pvs):
+    """The `variableList` handed to marshal(): a list, a tuple or an object declaring its field order."""
+    r = rng.random()
+    if r < 0.6:
+        return list(pvs), 'list'
+    if r < 0.8:
+        return tuple(pvs), 'tuple'
+    return DbusOrderStruct(list(pvs)), 'dbusOrder-object'
+
+
+def value_stats(ty, sv, stat, depth=0, in_variant=0):
+    """Report the dimensions on which size- or shape-dependent defects hinge (`stat(key)` is called per value)."""
+    if isinstance(ty, str):
+        if ty == 'v':
+            stat('variant-nesting=%d' % min(in_variant + 1, 4))
+            stat('variant-content-signature-length=%s' % _bucket(len(render(sv[1])), [1, 4, 20, 127, 255]))
+            value_stats(sv[1], sv[2], stat, depth, in_variant + 1)
+        elif ty in 'so':
+            n = len(sv.encode('utf-8'))
+            stat('string-bytes=%s' % _bucket(n, [0, 8, 40, 255, 65535]))
+            if any(ord(c) > 127 for c in sv):
+                stat('string:non-ascii')
+        elif ty == 'g':
+            stat('signature-value-length=%s' % _bucket(len(sv), [0, 4, 20, 127, 255]))
+        elif ty == 'd' and sv != sv:
+            stat('double:nan')
+        return
+    if ty[0] == 'a':
+        stat('array-length=%s' % _bucket(len(sv), [0, 1, 5, 16, 64]))
+        if not sv:
+            stat('empty-array-of-alignment=%d' % ALIGN[code(ty[1])])
+        for e in sv:
+            value_stats(ty[1], e, stat, depth + 1, in_variant)
+    elif ty[0] == '(':
+        for f, e in zip(ty[1], sv):
+            value_stats(f, e, stat, depth + 1, in_variant)
+    else:
+        if isinstance(sv[0], float) and sv[0] != sv[0]:
+            stat('dict-key:nan')
+        value_stats(ty[1], sv[0], stat, depth + 1, in_variant)
+        value_stats(ty[2], sv[1], stat, depth + 1, in_variant)
+
+
+def _bucket(n, edges):
+    prev = None
+    for e in edges:
+        if n <= e:
+            return ('%d' % e) if prev is None or prev + 1 == e else '%d..%d' % (prev + 1, e)
+        prev = e
+    return '>%d' % edges[-1]
+
+
 def type_stats(ty):
     """(nesting depth, number of type codes) of a type - for distribution reports."""
     return depth_of(ty), len(render(ty))
